@@ -717,8 +717,8 @@ SDreaddata(int32  sdsid,  /* IN:  dataset ID */
 #endif
 
     /* Validate stride value if given - make sure we don't try to "stride" */
-    /* beyond the dimension's end */
-    if (stride != NULL) {
+    /* beyond the dimension's end (a scalar dataset has no shape to check) */
+    if (stride != NULL && var->assoc->count > 0) {
         int   i;
         int32 dimsize = (int32)var->shape[0];
 
